@@ -612,6 +612,35 @@ def _d_data_views_print_assert():
     return m, [c.as_value(), r]
 
 
+@design("attrs_and_aliases", F_PLAIN)
+def _d_attrs_and_aliases():
+    """Several named signals for the same nets (plain aliases, an enumeration-shaped one), some carrying attributes:
+    converting must not leave anything behind in the design objects."""
+    from amaranth.hdl import Module, Signal, ClockDomain
+    from amaranth.lib import enum
+
+    class Mode(enum.Enum, shape=2):
+        IDLE = 0
+        RUN = 1
+        HALT = 2
+    m = Module()
+    m.domains.sync = ClockDomain()
+    a, b = Signal(4), Signal(4)
+    mix = Signal(4)
+    dbg = Signal(4, attrs={"keep": 1, "mark": "probe"})
+    dbg2 = Signal(4, attrs={"mark": "other"})
+    mode = Signal(Mode)
+    raw = Signal(2, attrs={"fsm_encoding": "none"})
+    acc = Signal(4, attrs={"ram_style": "x"})
+    m.d.comb += [mix.eq(a ^ b), dbg.eq(mix), dbg2.eq(dbg), raw.eq(a[:2]), mode.eq(raw)]
+    m.d.sync += acc.eq(acc + mix)
+    sub = Module()
+    tap = Signal(4, name="mix", attrs={"keep": 1})
+    sub.d.comb += tap.eq(acc)
+    m.submodules.sub = sub
+    return m, [a, b, dbg2, mode.as_value(), tap]
+
+
 @design("arrays_and_switches", F_PLAIN, F_CLASH)
 def _d_arrays_and_switches():
     from amaranth.hdl import Module, Signal, Array, Mux, Cat, ClockDomain
@@ -692,7 +721,8 @@ def random_design(seed):
         if pre < 0.35:
             control(m)
         for _ in range(rng.randint(1, 3)):
-            s = Signal(rng.randint(1, 4), name=rng.choice(_GEN_NAMES))
+            s = Signal(rng.randint(1, 4), name=rng.choice(_GEN_NAMES),
+                       attrs=rng.choice([None, None, {"keep": 1}, {"mark": "m%d" % len(avail)}]))
             d = rng.choice(doms + ["comb"])
             a, b = rng.choice(avail), rng.choice(avail)
             m.d[d] += s.eq(rng.choice([a + b, a ^ b, ~a, a & b, a]))
